@@ -332,7 +332,12 @@ func FromGo(v any) (V, error) {
 type NumMode func(n Num) any
 
 // JSONNumber renders numbers as json.Number in a canonical plain spelling.
-func JSONNumber(n Num) any { return json.Number(NumText(n)) }
+func JSONNumber(n Num) any {
+	if n.Txt != "" {
+		return json.Number(n.Txt)
+	}
+	return json.Number(NumText(n))
+}
 
 // ToGo converts a model value to the Go representation the library consumes.
 func ToGo(v V, nm NumMode) any {
